@@ -14,7 +14,8 @@ Case formats (Model/Entry_C16.v; kinds 0,1,2,5,6 run in harness/src/bin/c16.rs, 
     stdin 0 the input is a file, 1/2/3 it is piped in and named `-` / `stdin` / `/dev/stdin`
     exit classes: 0 ok, 1 error exit, 2 panic/abort, 3 timeout
 """
-import os, re, shutil, struct, subprocess, tempfile
+import os, re, shutil, subprocess, tempfile
+from fractions import Fraction
 from concurrent.futures import ThreadPoolExecutor
 from ..runner import Prop
 from .. import core
@@ -31,28 +32,97 @@ AUTOSQL = 'table t\n"c"\n(\nstring chrom; "c"\nuint chromStart; "s"\nuint chromE
 NUM = re.compile(rb"^(0|[1-9][0-9]*)$")
 
 
-def f32bits(text):
-    """f32 bit pattern of a decimal text, or None (the same function is applied to input and output texts)"""
-    try:
-        x = float(text)
-        b = struct.unpack("<I", struct.pack("<f", x))[0]
-    except (ValueError, OverflowError, struct.error):
+FLOAT_RE = re.compile(r"^[+-]?(\d+\.?\d*|\.\d+)([eE][+-]?\d+)?$", re.ASCII)
+NONFINITE_RE = re.compile(r"^([+-]?)(nan|inf|infinity)$", re.ASCII | re.IGNORECASE)     # what core's dec2flt accepts besides decimal literals
+def f32_round(x):
+    """bit pattern of the binary32 nearest to the rational x, ties to even, computed exactly (float(text) followed by
+    struct.pack('<f') rounds twice: decimal -> binary64 -> binary32); subnormals included; overflow gives the infinity"""
+    sign = 0x80000000 if x < 0 else 0
+    x = abs(x)
+    if x == 0: return sign
+    e = x.numerator.bit_length() - x.denominator.bit_length()
+    if Fraction(2) ** e > x: e -= 1            # 2^e <= x < 2^(e+1)
+    e = max(e, -126)
+    q = x / Fraction(2) ** (e - 23)              # significand in units of the last place, in [2^23, 2^24) for a normal number
+    n = q.numerator // q.denominator
+    rem = q - n
+    if rem > Fraction(1, 2) or (rem == Fraction(1, 2) and n % 2 == 1): n += 1
+    b = ((e + 127) << 23) + n - (1 << 23)       # a carry to 2^24 moves into the exponent field; subnormals: e = -126 gives n itself
+    return sign | min(b, 0x7F800000)
+
+
+def f32bits_any(text):
+    """what str::parse::<f32> returns (bit pattern): decimal literals rounded exactly (infinite on overflow), and the
+    spellings nan / inf / infinity in any case with an optional sign; None when the text is neither"""
+    m = NONFINITE_RE.fullmatch(text)
+    if m:
+        return (0x80000000 if m.group(1) == "-" else 0) | (0x7FC00000 if m.group(2).lower() == "nan" else 0x7F800000)
+    if not FLOAT_RE.fullmatch(text):
         return None
-    if b & 0x7F800000 == 0x7F800000:
+    b = f32_round(Fraction(text if text[-1] != "." else text + "0"))
+    return b | 0x80000000 if text[0] == "-" else b          # -0, and a negative text that rounds to zero, keep the sign
+
+
+def f32bits(text):
+    """f32 bit pattern of a value text, or None (the same function is applied to input and output texts).  A decimal literal
+    beyond the f32 range is NOT read as an infinity here: no generated input has one, and an output that spells an infinity
+    or a NaN as an out-of-range decimal (3.4028237e38, 5.1042355e38) is not the value that went in."""
+    b = f32bits_any(text)
+    if b is not None and b & 0x7F800000 == 0x7F800000 and not NONFINITE_RE.fullmatch(text):
         return None
     return b
 
 
-FLOAT_RE = re.compile(r"^[+-]?(\d+\.?\d*|\.\d+)([eE][+-]?\d+)?$")
-def f32bits_any(text):
-    """what str::parse::<f32> returns for a plain decimal literal (infinite on overflow); None when it is not such a literal"""
-    if not FLOAT_RE.match(text) or not text.isascii():
-        return None
-    x = float(text)
-    try:
-        return struct.unpack("<I", struct.pack("<f", x))[0]
-    except OverflowError:
-        return 0xFF800000 if x < 0 else 0x7F800000
+def f32value(b):
+    """the rational a finite binary32 bit pattern stands for"""
+    e, m = (b >> 23) & 0xFF, b & 0x7FFFFF
+    x = Fraction(m, 1 << 23) * Fraction(2) ** -126 if e == 0 else (1 + Fraction(m, 1 << 23)) * Fraction(2) ** (e - 127)
+    return -x if b >> 31 else x
+
+
+def exact_decimal(x):
+    """the terminating decimal expansion of a rational whose denominator divides a power of ten"""
+    d = 0
+    while (x * 10 ** d).denominator != 1: d += 1
+    n = int(abs(x) * 10 ** d)
+    t = str(n).rjust(d + 1, "0")
+    return ("-" if x < 0 else "") + (t[:-d] + "." + t[-d:] if d else t)
+
+
+def midpoint_texts():
+    """long decimals next to the midpoint of two neighbouring binary32 values: a parser that goes through binary64 first
+    (round to 53 bits, then to 24) lands exactly ON the midpoint and then resolves the tie to the even neighbour, which is
+    the wrong one for `just above an even pattern` and `just below an odd pattern`.  (text, exactly rounded bits, kind)"""
+    out = []
+    for b in [0x3F800000, 0x3F800001, 0x3DCCCCCD, 0x42C80000, 0x40490FD0, 0x477FE001, 0xBF800000, 0xBE4CCCCD, 0x3A83126E]:
+        lo, hi = f32value(b), f32value(b + 1)           # for a negative pattern b + 1 is the next one AWAY from zero
+        mid = (lo + hi) / 2
+        eps = Fraction(1, 10 ** (len(exact_decimal(mid).split(".")[1]) + 2))
+        towards_hi = exact_decimal(mid + eps if mid > 0 else mid - eps)
+        towards_lo = exact_decimal(mid - eps if mid > 0 else mid + eps)
+        out.append((towards_hi, b + 1, "mid-wrong-by-f64" if b % 2 == 0 else "mid-side"))
+        out.append((towards_lo, b, "mid-wrong-by-f64" if b % 2 == 1 else "mid-side"))
+        if b in (0x3F800000, 0x3DCCCCCD):
+            out.append((exact_decimal(mid), b if b % 2 == 0 else b + 1, "mid-tie"))
+    out.append(("1.0000000596046448", 0x3F800001, "mid-wrong-by-f64"))     # 17 digits: the binary64 nearest to 1 + 2^-24 from above
+    for (t, b, _) in out:
+        assert f32bits_any(t) == b, (t, b, f32bits_any(t))
+    return out
+
+
+MIDPOINTS = midpoint_texts()
+MIDPOINT_TEXTS = [t for (t, _, _) in MIDPOINTS]
+# non-finite spellings str::parse::<f32> accepts and the tools print back as NaN / inf / -inf (bit pattern preserved)
+NONFINITE_TEXTS = ["NaN", "inf", "-inf", "nan", "+Inf", "-Infinity", "infinity"]
+# accepted by the parser (0xFFC00000) but printed back as `NaN` (ryu prints no sign for a NaN): library level only
+NEG_NAN_TEXTS = ["-NaN", "-nan"]
+PIPE_VALUE_TEXTS = VALUE_TEXTS[:20] + NONFINITE_TEXTS + MIDPOINT_TEXTS
+LINE_VALUE_TEXTS = VALUE_TEXTS + NONFINITE_TEXTS + NEG_NAN_TEXTS + MIDPOINT_TEXTS
+def value_tags(texts):
+    tags = []
+    if any(NONFINITE_RE.fullmatch(t) for t in texts): tags.append("value-nonfinite")
+    if any(t in MIDPOINT_TEXTS for t in texts): tags.append("value-f32-midpoint")
+    return tags
 
 
 def exit_class(rc):
@@ -183,7 +253,9 @@ class C16(Prop):
                 "C16_file_matches_list_model_bigwig", "C16_file_matches_list_model_bigbed"]
     RULE = ("pipelines over the BUILT BINARIES: canonical multi-chromosome bedGraph / BED texts (1..6 chromosomes from a pool with "
             "ASCII, UTF-8 and look-alike names in byte order; per chromosome 1..30 records, one line per chromosome for the tiny class, "
-            "1030/2100 records for the multi-block class; adjacent / gapped values touching 0 and the chromosome end incl. 2^32-1; BED entries "
+            "1030/2100 records for the multi-block class; adjacent / gapped values touching 0 and the chromosome end incl. 2^32-1; value texts: "
+            "20 plain decimals, 7 non-finite spellings (NaN nan inf +Inf infinity -inf -Infinity), 21 long decimals just above / just below / on "
+            "the midpoint of two neighbouring f32 values (positive and negative, expected bits by exact rational rounding); BED entries "
             "overlapping, nested, identical, zero-length, with 0,1,3,9,12 extra columns of printable UTF-8 tokens; final newline present / "
             "absent, CRLF) x chrom.sizes layouts (tab, spaces, extra columns, CRLF, blank lines, no final newline, a repeated name, unused names) "
             "x -t {1,2,4,8,16,default} x --parallel {auto,yes,no,default} x --single-pass x --inmemory x --uncompressed x --block-size x "
@@ -200,7 +272,8 @@ class C16(Prop):
                       "bedgraphtobigwig -> bigwigtobedgraph and bedtobigbed -> bigbedtobed (also through `bigtools <tool>` and CamelCase names)")
     TRUSTED = ["tools/gen_consts_extra.py gen_compat (compat table / command list / clap flag translator)",
                "tools/vlib/props/C16.py: argv construction, temp-dir pipelines, exit-code classes, parsing of the info tools' output",
-               "Python float() + struct.pack('<f') as the decimal -> f32 function applied to BOTH input and output value texts "
+               "f32bits / f32_round in this file (fractions.Fraction, round to nearest even binary32 done by hand: exact, no detour "
+               "through binary64) as the text -> f32 function applied to BOTH input and output value texts, incl. nan / inf / infinity "
                "(agreement with Rust's str::parse::<f32> is checked on every value text used, kind-1 cases)",
                "bigwiginfo / bigbedinfo --chroms (chromosome table and isCompressed as observed)",
                "harness/src/bin/c16.rs (public API only, no hook)"]
@@ -276,7 +349,7 @@ class C16(Prop):
             pos += rng.choice([0, 0, 0, 1, 3, 50])
             w = rng.choice([1, 1, 2, 10, 100])
             if pos + w > ln: break
-            recs.append((pos, pos + w, rng.choice(VALUE_TEXTS[:20])))
+            recs.append((pos, pos + w, rng.choice(PIPE_VALUE_TEXTS)))
             pos += w
         if recs and rng.random() < 0.3 and recs[-1][1] < ln:      # last value touches the chromosome end
             s, e, v = recs[-1]
@@ -325,6 +398,7 @@ class C16(Prop):
         sizes, stag = self.sizes_text(rng, lens)
         tags.append(stag)
         table = sorted({x for recs in per.values() for (_, _, x) in recs}) if bg else []
+        tags += value_tags(table)
         table = [[t.encode(), f32bits(t)] for t in table]
         return sizes, text, table, per, lens, tags
 
@@ -491,10 +565,10 @@ class C16(Prop):
         s = rng.choice([0, 1, 9, 10, 99, 100, 12345, 4294967295, 4294967294, rng.randrange(0, 2 ** 32)])
         e = rng.choice([0, 5, 1000, 4294967295, rng.randrange(0, 2 ** 32)])
         if bg:
-            v = rng.choice(VALUE_TEXTS)
+            v = rng.choice(LINE_VALUE_TEXTS)
             line = "%s\t%d\t%d\t%s" % (chrom, s, e, v)
             expect = [[chrom.encode(), s, e, f32bits(v)]]
-            table = [[t.encode(), f32bits(t)] for t in VALUE_TEXTS]
+            table = [[t.encode(), f32bits(t)] for t in LINE_VALUE_TEXTS]
         else:
             ncols = rng.choice([0, 1, 2, 9, 12])
             rest = "\t".join(rng.choice(REST_TOKENS + ["", "a b"]) for _ in range(ncols))
@@ -502,7 +576,7 @@ class C16(Prop):
             line = "%s\t%d\t%d" % (chrom, s, e) + ("\t" + rest if rest else "")
             expect = [[chrom.encode(), s, e, rest.encode()]]
             table = []
-        tags = ["line", "line-bedgraph" if bg else "line-bed"]
+        tags = ["line", "line-bedgraph" if bg else "line-bed"] + (value_tags([v]) if bg else [])
         b = line.encode()
         m = rng.random()
         if m < 0.5:
@@ -536,7 +610,7 @@ class C16(Prop):
                 if bg: expect = [[chrom.encode(), s, e, f32bits(v)]]      # parse_bedgraph ignores what follows the value
         if bg:      # the value text the mutated line really carries (the model takes str::parse::<f32> from this table)
             p = b.decode("utf-8").rstrip().split("\t")
-            if len(p) >= 4 and all(p[3] != t for t in VALUE_TEXTS):
+            if len(p) >= 4 and all(p[3] != t for t in LINE_VALUE_TEXTS):
                 fb = f32bits_any(p[3])
                 if fb is not None: table.append([p[3].encode(), fb])
         return sx([1, 1 if bg else 0, b, table, expect]), tags
